@@ -31,6 +31,7 @@ AREAS["C01"] = {
     "level_note": "trusted: Coq kernel, extraction, OCaml driver, Go harness; modelled not verified: SQLite, NATS, protobuf transport; theorems assume distinct times per identity and no NaN (refused, C05)",
 }
 AREAS["C03"] = {
+    "known_soft_only": True,
     "area": "c03", "id": 3, "coq": ["Base", "Store", "Properties/C03.v"], "rule": STORE_RULE, "trusted": STORE_TRUSTED, "assumptions": STORE_ASSUME,
     "level_text": "proof: the incremental XOR-Merkle update of the model preserves the from-scratch hash equation on every edge for every history and every acyclic graph shape "
                   "(path-parity argument, fuel adequacy); the model's hashes must equal the instance's after every request, and every dumped hash is recomputed independently from the dump",
